@@ -280,6 +280,9 @@ func (p *Packet) Bytes() []byte {
 		nbits = 64
 		exp = -11 // precise to 10 ps
 		period := math.Pow10(-int(exp)) / ts.Rate
+		if math.IsInf(period, 0) { // a zero rate has no period, and halving it would never end
+			period = 0
+		}
 		denom = 1
 		for ; period > 65535; period *= 0.5 {
 			denom *= 2
